@@ -247,15 +247,75 @@ def oracle(scn) -> core.CaseResult:
     return res
 
 
+
+# ---------------------------------------------------------------------------
+# the same promise for a legacy (version 1) configuration: the user's IBM given by path is the one that runs,
+# once per step, and is closed once - whether or not its section lists any variables
+# ---------------------------------------------------------------------------
+
+
+@st.composite
+def legacy_cases(draw):
+    from checks import c18
+
+    a = draw(c18.abstract())
+    a["ibm"] = False
+    a["key"] = draw(st.sampled_from(["ibm_module", "ibm_module", "module"]))
+    a["with_variables"] = draw(st.sampled_from([False, False, True]))
+    a["plug_gf"] = False
+    return a
+
+
+def legacy_oracle(a) -> core.CaseResult:
+    import yaml
+
+    from checks import c18
+
+    res = core.CaseResult()
+    res.cls("legacy_ibm_" + ("with" if a["with_variables"] else "without") + "_variables")
+    with e2e.workdir() as d:
+        F = c18.build_files(d, a)
+        conf = c18.render(a, F, d, "v1", "out.nc")
+        src = (sim.PLUG / "rec_all.py").read_text()
+        (d / "user_ibm.py").write_text(src)
+        sec = dict(conf.get("ibm") or {})
+        sec[a["key"]] = str(d / "user_ibm.py")
+        if a["with_variables"] and "variables" not in sec:
+            sec["variables"] = []
+        if not a["with_variables"] and not sec.get("variables"):
+            sec.pop("variables", None)
+        conf["ibm"] = sec
+        with open(d / "legacy.yaml", "w", encoding="utf-8") as f:
+            yaml.safe_dump(conf, f, sort_keys=False)
+        r = e2e.run_main(d / "legacy.yaml")
+        if not res.check(r["status"] == "ok", "legacy_run_fails", f"{r['exc']}\n{(r['tb'] or '')[-500:]}"):
+            return res
+        calls = [e for e in r["log"] if e[0] == "call" and e[1] == "ibm"]
+        upd = [c[3] for c in calls if c[2] == "update"]
+        res.check(upd == list(range(a["nsteps"])), "legacy_ibm_calls",
+                  f"the IBM named in the legacy file was called at steps {upd}, expected once per step 0..{a['nsteps'] - 1}")
+        res.check(len([c for c in calls if c[2] == "close"]) == 1, "legacy_ibm_close",
+                  f"close calls: {len([c for c in calls if c[2] == 'close'])}")
+        res.check(all((d / c[4]).resolve() == (d / "user_ibm.py").resolve() for c in calls), "wrong_file_ran",
+                  "another file than the configured IBM ran")
+    res.nontrivial = a["nsteps"] >= 2
+    return res
+
+
 def shard(n, seed, known, max_steps):
     stt = core.Stats()
-    core.drive("protocol", cases(max_steps), oracle, n, seed, stt, known)
+    if max_steps == "legacy":
+        core.drive("legacy", legacy_cases(), legacy_oracle, n, seed, stt, known)
+    else:
+        core.drive("protocol", cases(max_steps), oracle, n, seed, stt, known)
     return stt
 
 
 def run(ctx):
     jobs = [(k, core.subseed(ctx.seed, "p", i), ctx.known_sigs, ctx.n(12, 20))
-            for i, k in enumerate(core.split(ctx.n(1200, 12000), 16))]
+            for i, k in enumerate(core.split(ctx.n(1200, 12000), 13))]
+    jobs += [(k, core.subseed(ctx.seed, "legacy", i), ctx.known_sigs, "legacy")
+             for i, k in enumerate(core.split(ctx.n(240, 3000), 3))]
     stats = core.Stats()
     for s in core.pmap(shard, jobs):
         stats.merge(s)
@@ -271,4 +331,4 @@ def run(ctx):
 
 
 def replay(part, case):
-    return oracle(case)
+    return legacy_oracle(case) if part == "legacy" else oracle(case)
